@@ -37,7 +37,7 @@ fn flat(width: u32) -> Vec<Reg> {
     (1..=width).map(|t| Reg::Sys { tag: t, name: format!("s{}", t), deps: vec![], reads: vec![], writes: vec![100 + t], time: 3, kind: SysKind::Dynamic }).collect()
 }
 
-/// cfg: user | default | batch | async | batch2 | batchdeep | seqbatch | afterpanic | foreign | defforeign (default pool) | asyncforeign | asyncdefforeign | asyncdouble | defbatch | batchfirst ; returns "arrived=<max simultaneously inside>;timeout=<0|1>;ok=<0|1>" per repetition
+/// cfg: user | default | batch | async | batch2 | batchdeep | seqbatch | afterpanic | sendrunnow | foreign | defforeign (default pool) | asyncforeign | asyncdefforeign | asyncdouble | defbatch | batchfirst ; returns "arrived=<max simultaneously inside>;timeout=<0|1>;ok=<0|1>" per repetition
 pub fn observe(cfg: &str, width: u32, pool_size: usize, reps: u32, limit_ms: u64) -> String {
     let rec = Recorder::new(MapMode::B);
     rec.set_caller();
@@ -119,6 +119,19 @@ pub fn observe(cfg: &str, width: u32, pool_size: usize, reps: u32, limit_ms: u64
                 // a second dispatch() issued while the first is in flight must not take a pool thread away from it
                 catch_unwind(AssertUnwindSafe(|| { ad.dispatch(); ad.dispatch(); ad.wait(); }))
             } else { catch_unwind(AssertUnwindSafe(|| { ad.dispatch(); ad.wait(); })) };
+            res.push(format!("arrived={}:timeout={}:ok={}", *rv.max_seen.lock().unwrap(), *rv.timed_out.lock().unwrap() as u8, r.is_ok() as u8));
+            if *rv.timed_out.lock().unwrap() { break; }
+        }
+    } else if cfg == "sendrunnow" {
+        // the sendable form driven through the RunNow trait (boxed as a system, the way an outer dispatcher or generic code runs it)
+        let mut d: Box<dyn for<'x> shred::RunNow<'x> + Send> = match builder.build().try_into_sendable() { Ok(d) => Box::new(d), Err(_) => return "builderr".into() };
+        let mut world = make_world(&regs, MapMode::B);
+        let _ = catch_unwind(AssertUnwindSafe(|| d.setup(&mut world)));
+        let _ = rec.take();
+        rec.set_sched(rv.clone());
+        for _ in 0..reps {
+            rv.reset(); *rv.max_seen.lock().unwrap() = 0;
+            let r = catch_unwind(AssertUnwindSafe(|| d.run_now(&world)));
             res.push(format!("arrived={}:timeout={}:ok={}", *rv.max_seen.lock().unwrap(), *rv.timed_out.lock().unwrap() as u8, r.is_ok() as u8));
             if *rv.timed_out.lock().unwrap() { break; }
         }
